@@ -130,6 +130,11 @@ def handleFile (st : St) (line : String) : St × String :=
     | some u, some idm, some rop, some d, some t, some abs, some quser =>
       (st, statusStr (rowRequestHTTP st u (adm == "1") (actOfNat idm) rop abs quser d t))
     | _, _, _, _, _, _, _ => (st, "bad-input")
+  | ["X", u, adm, op, txr, d, t] =>
+    match nm u, rowOpOf op, nm d, nm t with
+    | some u, some rop, some d, some t =>
+      (st, statusStr (rowRequestTx st u (adm == "1") rop (txr == "1") d t))
+    | _, _, _, _ => (st, "bad-input")
   | ["L", u, d, t] =>
     match nm u, nm d, nm t with
     | some u, some d, some t =>
